@@ -84,7 +84,8 @@ class WWorld:
         if c['timeout'] is None:
             self.timeout = z3.Int('shutdown_timeout_ms'); ex.solver.add(self.timeout >= 0, self.timeout <= 5000)
         else: self.timeout = z3.IntVal(c['timeout'])
-        self.worker = Struct('ServerWorker', byname('ServerWorker', conn_rx=RxObj(self.connch), stop_rx=RxObj(self.stopch), counter=wc,
+        self.connrx = RxObj(self.connch); self.accept_gone = False
+        self.worker = Struct('ServerWorker', byname('ServerWorker', conn_rx=self.connrx, stop_rx=RxObj(self.stopch), counter=wc,
                              services=BoxObj(VecObj(svcs)), factories=BoxObj(VecObj(facs)), state=Enum('WorkerState', 'Unavailable'),
                              shutdown_timeout=self.timeout))
         self.cx = ContextObj(WakerObj(1))
@@ -121,11 +122,12 @@ class WWorld:
     def enabled(self):
         c = self.cfg; A = c['actions']; ops = []
         if self.done: return ['end']
-        if 'conn' in A and self.nconn < c['max_conns'] and not self.stops:
+        if 'conn' in A and self.nconn < c['max_conns'] and not self.stops and not self.accept_gone:
             ops += ['conn:%d' % t for t in range(c['S'])]
         if 'finish' in A and self.guards: ops += ['finish:%d' % k for k in range(len(self.guards))]
         if 'stop' in A and len(self.stops) < c.get('max_stops', 1): ops += ['stop:1', 'stop:0']
         if 'tick' in A: ops.append('tick')
+        if 'close' in A and not self.accept_gone: ops.append('close')
         ops.append('poll')
         return ops
 
@@ -137,6 +139,17 @@ class WWorld:
             self.connch.q.append(conn); self.tokens.append((self.next_sid, tok)); self.next_sid += 1; self.nconn += 1
             self.atomic.value.v = z3.simplify(self.atomic.value.v + 1)           # the accept thread's inc_counter
             self.hist.append(op)
+        elif op.startswith('send:'):
+            # replay only: the connection is handed over but not (yet) counted - an order only the accept thread can produce
+            tok = int(op[5:])
+            conn = Struct('Conn', self.byname('Conn', io=Enum('MioStream', 'Tcp', [Struct('TcpStream', [z3.BitVecVal(self.next_sid, 64)])]), token=z3.BitVecVal(tok, 64)))
+            self.connch.q.append(conn); self.tokens.append((self.next_sid, tok)); self.next_sid += 1; self.nconn += 1; self.hist.append(op)
+        elif op == 'inc':
+            self.atomic.value.v = z3.simplify(self.atomic.value.v + 1); self.hist.append(op)
+        elif op == 'close':
+            # the accept thread has returned (it does so when it processes Stop): every WorkerHandleAccept, hence every sender of the
+            # connection channel, is dropped
+            self.connrx.senders_alive = False; self.accept_gone = True; self.hist.append(op)
         elif op.startswith('finish:'):
             sid, g = self.guards.pop(int(op[7:])); ex.drop(g); self.finished.append(sid); self.log.append('finished:%d' % sid); self.hist.append(op)
         elif op.startswith('stop:'):
@@ -319,6 +332,18 @@ def chk_c06(w):
                      what='counter says %s, %d guards alive' % (w.total(), w.live()))
 
 
+def chk_c06_exit(w):
+    """A worker future that completes takes its connections in progress with it (its arbiter stops). Without a Stop request it may
+    therefore complete only when nothing is in progress; with one, chk_c06 says when."""
+    if not w.polls or not w.polls[-1]['ready']: return
+    p = w.polls[-1]
+    received_stop = w.stop_poll is not None and len(w.polls) - 1 >= w.stop_poll
+    if received_stop: return
+    w.acc.violated(w.ex, 'C06/worker_without_a_stop_request_does_not_exit_with_connections_in_progress', w.live() != 0, hist=w.hist,
+                   what='the worker future completed without having received Stop while %d connections were in progress' % w.live())
+    w.acc.wit['c06_exit_without_stop'] += 1
+
+
 # ---------------------------------------------------------------- native side
 def sym_run(ctx, cfg, tokens):
     c = dict(cfg); c.update(checks=())
@@ -444,6 +469,10 @@ def report_violation(rep, pid, ctx, cfg, v):
     reproduced = v['obligation'] in badn
     shape = ' '.join(t.split(':')[0] if t.startswith('tick') else t for t in v['hist'])
     fkey = '%s: S=%d hist=[%s]' % (v['obligation'], cfg['S'], shape)
+    if v['obligation'] == 'C06/worker_without_a_stop_request_does_not_exit_with_connections_in_progress' and 'close' in tokens:
+        # one call site, one failure mode (worker.rs, Available arm: `None => return Poll::Ready(())` when the connection channel is
+        # closed): keyed by that role, not by the particular history the exploration happens to find first
+        fkey = '%s: the connection channel is closed (accept thread gone) before the worker has received Stop' % v['obligation']
     path = core.write_replay(pid, fkey, {'side': 'worker', 'cfg': {k: x for k, x in cfg.items() if k != 'checks'}, 'timeout': timeout, 'tokens': tokens,
                                          'obligation': v['obligation'], 'native_trace': trace, 'native_violations': sorted(badn)})
     rep.violation(fkey, '%s -- %s; history=%s' % (v['obligation'], v['what'], tokens), replay=path, reproduced=reproduced)
@@ -459,7 +488,7 @@ def judge_native(ctx, cfg, tokens, timeout, trace):
     c = dict(cfg); c.update(timeout=timeout)
     ex = ctx.mk(); acc = Acc(); w = WWorld(ctx, ex, acc, c)
     status = ''
-    checks = [chk_c07, chk_c06]
+    checks = [chk_c07, chk_c06, chk_c06_exit]
     try:
         for t in tokens:
             if t.startswith('poll:'):
